@@ -159,6 +159,29 @@ pub fn c02(c: &mut Ctx, b: &Budget) {
                 cur = next;
             }
         }
+        // a node whose subject is an already compressed (or encrypted) *node*, then targeted as a whole - at the root and nested
+        if i % 4 == 1 {
+            let inner = { let s0 = gen_leaf(c, &cfg); let a = gen_assertion(c, &cfg, 0); let n = c.assign(&format!("add {} {}", s0, a)); if c.rng.chance(1, 2) { let b2 = gen_assertion(c, &cfg, 0); c.assign(&format!("add {} {}", n, b2)) } else { n } };
+            let z = if c.rng.chance(2, 3) { c.assign(&format!("compress {}", inner)) } else { let n = hex::encode(c.rng.bytes(12)); c.assign(&format!("encrypt {} {} {}", inner, KEY2, n)) };
+            let a = gen_assertion(c, &cfg, 0);
+            let outer = c.assign(&format!("add {} {}", z, a));
+            let host = if c.rng.chance(1, 2) { outer.clone() } else { let p = gen_leaf(c, &cfg); let asr = c.assign(&format!("assertion {} {}", p, outer)); let s1 = gen_leaf(c, &cfg); c.assign(&format!("add {} {}", s1, asr)) };
+            if let Some(orig) = c.env(&host) {
+                for act in ["compress".to_string(), "elide".to_string(), format!("encrypt:{}", KEY1)] {
+                    for mode in ["rem", "rev"] {
+                        let ts = if mode == "rem" { outer.clone() } else { host.clone() };
+                        let r = c.assign(&format!("elide_set {} {} {} {}", host, mode, act, ts));
+                        c.count("branch:obscured-node-subject-targeted");
+                        c.no_panic(&r, "obscuring");
+                        if let Some(res) = c.env(&r) {
+                            observe_env(c, &r, false);
+                            let v = check_positions(&orig, &res);
+                            c.check("digests-preserved", v.is_ok(), "digests-preserved", || format!("{}: {} -> {}", v.unwrap_err(), shape(&orig), shape(&res)));
+                        }
+                    }
+                }
+            }
+        }
         // whole-envelope encrypt: digest of the wrapped original
         if i % 5 == 0 {
             if let Some(orig) = c.env(&cur) {
@@ -192,6 +215,39 @@ pub fn c04(c: &mut Ctx, b: &Budget) {
             if s < steps {
                 let next = random_op(c, &cur, &cfg);
                 if c.is_ok(&next) { cur = next; }
+            }
+        }
+        c.end();
+    }
+}
+
+/// C04 (decode route): encodings spliced from pieces of the library's own output - a node whose assertion slot holds a node with
+/// a non-assertion subject, elements out of order, a repeated element.  The decoder may refuse; what it returns is an envelope
+/// the library emitted and must satisfy the grammar like any other.
+pub fn c04_spliced(c: &mut Ctx, b: &Budget) {
+    let cfg = GenCfg::default();
+    for i in 0..(b.scenarios / 3).max(20) {
+        c.begin("spliced-decode");
+        let subj = gen_leaf(c, &cfg);
+        let x = gen_env(c, &cfg, 2);
+        let y = gen_assertion(c, &cfg, 1);
+        if let (Some(se), Some(xe), Some(ye)) = (c.env(&subj), c.env(&x), c.env(&y)) {
+            let parts: Vec<CBOR> = match i % 4 {
+                0 => vec![se.untagged_cbor(), xe.untagged_cbor()],                                   // any envelope in an assertion slot
+                1 => { let inner = if xe.is_node() { xe.clone() } else { xe.add_assertion_envelope(ye.clone()).unwrap_or(xe.clone()) }; vec![se.untagged_cbor(), inner.untagged_cbor()] } // a node (often with a non-assertion subject) in an assertion slot
+                2 => vec![se.untagged_cbor(), ye.untagged_cbor(), ye.untagged_cbor()],               // repeated element
+                _ => { let z = Envelope::new_assertion("z", 1); let (a1, a2) = if ye.digest() < z.digest() { (z.clone(), ye.clone()) } else { (ye.clone(), z.clone()) }; vec![se.untagged_cbor(), a1.untagged_cbor(), a2.untagged_cbor()] } // descending order
+            };
+            let bytes = CBOR::to_tagged_value(200u64, CBOR::from(CBORCase::Array(parts))).to_cbor_data();
+            let d = c.assign(&format!("decode {}", hex::encode(&bytes)));
+            c.count(&format!("branch:spliced-{}", i % 4));
+            if let Some(e) = c.env(&d) {
+                c.count("branch:spliced-accepted");
+                observe_env(c, &d, true);
+                let r = check_grammar(&e);
+                c.check("grammar", r.is_ok(), "grammar", || format!("the decoder returned an envelope that violates the grammar: {} in {}", r.unwrap_err(), shape(&e)));
+                let r2 = check_spec_digests(&e);
+                c.check("held-digests-recompute", r2.is_ok(), "held-digests-recompute", || r2.unwrap_err());
             }
         }
         c.end();
@@ -309,6 +365,41 @@ pub fn c07(c: &mut Ctx, b: &Budget) {
                 c.obs(&format!("digest {}", m));
                 c.check("bulk-route-invariant", x.tagged_cbor().to_cbor_data() == b0, "bulk-route-invariant", || format!("add_many {:?}: {}", list, shape(&x)));
             }
+        }
+        // an element whose digest is already present is ignored whatever its form (revealed / elided / compressed / encrypted)
+        if let Some((e, b0)) = first.clone() {
+            let j = c.rng.below(n);
+            let form = match c.rng.below(3) { 0 => c.assign(&format!("elide {}", asserts[j])), 1 => c.assign(&format!("compress {}", asserts[j])), _ => { let nn = hex::encode(c.rng.bytes(12)); c.assign(&format!("encrypt_subject {} {} {}", asserts[j], KEY1, nn)) } };
+            if c.is_ok(&form) {
+                let again = c.assign(&format!("add {} {}", e, form));
+                c.obs(&format!("digest {}", again));
+                if let Some(x) = c.env(&again) { c.check("present-digest-ignored", x.tagged_cbor().to_cbor_data() == b0, "add-idempotent", || format!("adding an obscured form of a present assertion changed the envelope: {}", shape(&x))); }
+                // the other way round: the obscured form is there first, the revealed form is added
+                let mut base = s.clone();
+                for (k, a) in asserts.iter().enumerate() { base = c.assign(&format!("add {} {}", base, if k == j { &form } else { a })); }
+                let again2 = c.assign(&format!("add {} {}", base, asserts[j]));
+                c.obs(&format!("eq {} {}", base, again2));
+                if let (Some(x), Some(y)) = (c.env(&base), c.env(&again2)) { c.check("present-digest-ignored", x.tagged_cbor().to_cbor_data() == y.tagged_cbor().to_cbor_data(), "add-idempotent", || format!("adding the revealed form next to its obscured form changed the envelope: {}", shape(&y))); }
+                c.count("branch:present-digest-other-form");
+            }
+            // the `*_salted(.., false)` entry points are another route to the same envelope; a decorated copy of an
+            // assertion and the bare assertion are different elements (different digests) and both stay, in any order
+            let deco = { let aa = gen_assertion(c, &cfg, 0); c.assign(&format!("add {} {}", asserts[0], aa)) };
+            let mut set: Vec<String> = asserts.clone(); set.push(deco);
+            let mut reference = s.clone();
+            for a in &set { reference = c.assign(&format!("add {} {}", reference, a)); }
+            let refb = c.env(&reference).map(|x| x.tagged_cbor().to_cbor_data());
+            for _ in 0..3 {
+                let mut order = set.clone(); c.rng.shuffle(&mut order);
+                let mut r = s.clone();
+                for a in &order { r = c.assign(&format!("add_env_unsalted {} {}", r, a)); }
+                c.obs(&format!("digest {}", r));
+                if let (Some(x), Some(rb)) = (c.env(&r), refb.as_ref()) { c.check("unsalted-route-invariant", &x.tagged_cbor().to_cbor_data() == rb, "permutation-invariant", || format!("add_assertion_envelope_salted(.., false) in order {:?}: {}", order, shape(&x))); }
+                let m = c.assign(&format!("add_many_unsalted {} {}", s, order.join(",")));
+                c.obs(&format!("digest {}", m));
+                if let (Some(x), Some(rb)) = (c.env(&m), refb.as_ref()) { c.check("unsalted-route-invariant", &x.tagged_cbor().to_cbor_data() == rb, "permutation-invariant", || format!("add_assertions_salted(.., false) {:?}: {}", order, shape(&x))); }
+            }
+            c.count("branch:unsalted-route");
         }
         // add-then-remove restores; remove last yields the subject; unwrap(wrap)
         if let Some((e, _)) = first.clone() {
